@@ -754,7 +754,7 @@ func init() {
 				}
 				cl := asCall(a)
 				if cl != nil && staticCalleeIs(&cl.Call, "path/filepath", "Clean") {
-					hasParam := derivesFrom(cl.Call.Args[0], func(v ssa.Value) bool { p, ok := v.(*ssa.Parameter); return ok && p.Name() == "loc" }, 6, map[ssa.Value]bool{})
+					hasParam := derivesFrom(cl.Call.Args[0], func(v ssa.Value) bool { p, ok := v.(*ssa.Parameter); return ok && p.Type().String() == "string" && p.Parent() != nil && len(p.Parent().Params) > 0 && p == p.Parent().Params[len(p.Parent().Params)-1] }, 6, map[ssa.Value]bool{})
 					hasJoin := derivesFrom(cl.Call.Args[0], func(v ssa.Value) bool {
 						jc := asCall(v)
 						if jc == nil || !staticCalleeIs(&jc.Call, "path/filepath", "Join") {
